@@ -97,6 +97,8 @@ fn nested(a: &[u8], b: &[u8]) -> bool {
 }
 
 /// All substitution cases of `f`: (rewritten formula, [(wild index, replaced closed sub-formula)]).
+pub const WILD_OFFSET: u8 = 3; // fresh wild-card labels w0, w1, w2 (p, q, r may occur in the surrounding formula)
+
 pub fn cases(f: &F, max_simultaneous: usize, skip_atoms: bool) -> Vec<(F, Vec<(u8, F)>)> {
     let mut occ = vec![];
     closed_occurrences(f, &mut vec![], 0, &mut occ);
@@ -128,7 +130,7 @@ pub fn cases(f: &F, max_simultaneous: usize, skip_atoms: bool) -> Vec<(F, Vec<(u
                         *w
                     }
                     None => {
-                        let w = subs.len() as u8;
+                        let w = WILD_OFFSET + subs.len() as u8;
                         subs.push((w, sub));
                         w
                     }
@@ -173,8 +175,15 @@ fn run_ext(text: &str, g: &SymbolicAsyncGraph, ctx: &HashMap<String, GraphColore
 
 /// Check all substitution cases of one formula on one graph. Returns (#cases, problems).
 pub fn check(f: &F, names: &Names, g: &SymbolicAsyncGraph, max_sim: usize, skip_atoms: bool) -> (u64, Vec<String>) {
+    check_in(f, names, g, &HashMap::new(), max_sim, skip_atoms)
+}
+
+/// Like `check`, for a surrounding formula that may itself use wild-cards / domains bound by `outer`.
+pub fn check_in(f: &F, names: &Names, g: &SymbolicAsyncGraph, outer: &HashMap<String, GraphColoredVertices>, max_sim: usize, skip_atoms: bool) -> (u64, Vec<String>) {
     let text = f.show(names);
-    let base = match run_dirty(&text, g) {
+    let extended = f.uses_wild_or_dom();
+    let eval = |t: &str, uses: bool| if uses { run_ext(t, g, outer) } else { run_dirty(t, g) };
+    let base = match eval(&text, extended) {
         Ok(s) => s,
         Err(e) => return (1, vec![format!("plain evaluation of {text} fails: {e}")]),
     };
@@ -182,6 +191,7 @@ pub fn check(f: &F, names: &Names, g: &SymbolicAsyncGraph, max_sim: usize, skip_
     let mut n = 0;
     // identity: plain formula through the extended entry points with an empty context
     let empty = HashMap::new();
+    if !extended {
     for (name, r) in [
         ("model_check_extended_formula_dirty", run_ext(&text, g, &empty)),
         (
@@ -205,13 +215,14 @@ pub fn check(f: &F, names: &Names, g: &SymbolicAsyncGraph, max_sim: usize, skip_
         Ok(_) => bad.push(format!("model_check_extended_formula with an empty context differs from model_check_formula on {text}")),
         Err(p) => bad.push(format!("sanitising entry points panic on {text}: {p}")),
     }
+    }
     let mut memo: HashMap<F, Result<GraphColoredVertices, String>> = HashMap::new();
     for (g2, subs) in cases(f, max_sim, skip_atoms) {
         n += 1;
-        let mut ctx = HashMap::new();
+        let mut ctx = outer.clone();
         let mut ok = true;
         for (w, sub) in &subs {
-            let r = memo.entry(sub.clone()).or_insert_with(|| run_dirty(&sub.show(names), g)).clone();
+            let r = memo.entry(sub.clone()).or_insert_with(|| eval(&sub.show(names), sub.uses_wild_or_dom())).clone();
             match r {
                 Ok(s) => {
                     ctx.insert(names.wilds[*w as usize].clone(), s);
@@ -291,8 +302,12 @@ pub fn replay(case: &Value) -> Option<String> {
     }
     let spec = serde_json::from_value(case["net"].clone()).ok()?;
     let b = Arc::new(crate::bridge::Bound::new("replay", &spec, 3).ok()?);
-    let ctx = NetCtx::new(b, Labels::default(), "none");
-    let (_, bad) = check(&f, &ctx.user, &ctx.b.graph, 3, false);
+    let labels = match case.get("labels") {
+        Some(l) => Labels { wild: serde_json::from_value(l["wild"].clone()).ok()?, dom: serde_json::from_value(l["dom"].clone()).ok()?, props: vec![] },
+        None => Labels::default(),
+    };
+    let ctx = NetCtx::new(b, labels, "replay");
+    let (_, bad) = check_in(&f, &ctx.user, &ctx.b.graph, &ctx.sets, 3, false);
     if bad.is_empty() {
         None
     } else {
@@ -337,6 +352,41 @@ pub fn run(tier: &str) -> Result<Report, String> {
         // anchor: the plain results themselves are validated against the oracle by C01; count tables here
         rep.traces_validated += fs.len() as u64;
     }
+    // surrounding formulae with wild-cards and restricted domains (label families mixed / disjoint)
+    let mut ext_total = 0u64;
+    for b in nets.iter().filter(|b| ["con2", "asy2"].contains(&b.name.as_str()) || (tier != "quick" && ["imp1", "unc2"].contains(&b.name.as_str()))) {
+        let fams = crate::sweep::label_families(b, 4);
+        for (desc, labels) in [fams[0].clone(), fams[3].clone()] {
+            let ctx = NetCtx::new(b.clone(), labels, &desc);
+            let mut fs: Vec<F> = templates(&ctx.user, true, if tier == "quick" { 2 } else { 5 }).into_iter().filter(|f| f.uses_wild_or_dom()).collect();
+            let mut g = Gen::new(Alphabet::extended(ctx.nprops(), 2, 1, 2));
+            fs.extend(g.closed_up_to(if tier == "quick" { 3 } else { 4 }).into_iter().filter(|f| f.uses_wild_or_dom()));
+            let res: Vec<(u64, Option<Violation>)> = fs
+                .par_iter()
+                .map(|f| {
+                    let (n, bad) = check_in(f, &ctx.user, &ctx.b.graph, &ctx.sets, 2, false);
+                    let v = if bad.is_empty() {
+                        None
+                    } else {
+                        Some(Violation { case: json!({"kind": "subst", "net": ctx.b.spec, "aeon": ctx.b.aeon, "labels": {"wild": ctx.labels.wild, "dom": ctx.labels.dom}, "formula": f, "text": f.show(&ctx.user)}), what: format!("on {} labels={}: {}", ctx.b.name, desc, bad.join(" | ")), size: f.size() })
+                    };
+                    (n, v)
+                })
+                .collect();
+            for (n, v) in res {
+                ext_total += n;
+                if let Some(v) = v {
+                    rep.add_count("failing_formulae", 1);
+                    if rep.violations.len() < 150 {
+                        rep.violations.push(v);
+                    }
+                }
+            }
+            rep.add_count("extended_surrounding_formulae_x_networks_x_labels", fs.len() as u64);
+        }
+    }
+    total += ext_total;
+    rep.set("substitution_cases_in_extended_surroundings", json!(ext_total));
     // bundled models: benchmark formulae, substitutions of non-atomic closed sub-formulae; every
     // (model, formula) pair runs in a child process with a wall-clock limit
     let limit = if tier == "quick" { 15.0 } else { 240.0 };
@@ -373,8 +423,8 @@ pub fn run(tier: &str) -> Result<Report, String> {
     rep.set("bundled_model_substitution_cases", json!(big_cases));
     total += big_cases;
     rep.evaluations = total;
-    rep.distinct_nontrivial = total;
+    rep.distinct_nontrivial = total.saturating_sub(3 * rep.extra.get("formulae_x_networks").and_then(|v| v.as_u64()).unwrap_or(0));
     rep.sample(json!({"formula": "((!{x}: (AX {x})) & (EF a))", "case": "(%p% & (EF %q%)) with p := result of (!{x}: (AX {x})), q := result of a", "oracle": "raw result must equal (BDD equality) model_check_formula_dirty of the original"}));
-    rep.rule = format!("for every closed plain formula with <= {m} nodes (quick: 4 on con2 and asy2) and every plain template formula on the core networks {which:?}: every non-empty antichain of at most 3 closed proper sub-formula occurrences (atoms included) is replaced by wild-cards bound to model_check_formula_dirty of the sub-formula (once with a fresh wild-card per occurrence, once with one shared wild-card for equal sub-formulae), and the extended evaluation must equal the plain result as a set; plus the identity cases (plain formula through the extended entry points with an empty context). On the bundled models {:?}: benchmark-style formulae with all antichains of <= 2 non-atomic closed sub-formulae. distinct_nontrivial = number of substitution cases (each a distinct (formula, replaced occurrences) pair)", bigmodels::family(tier));
+    rep.rule = format!("for every closed plain formula with <= {m} nodes (quick: 4 on con2 and asy2) and every plain template formula on the core networks {which:?}: every non-empty antichain of at most 3 closed proper sub-formula occurrences (atoms included) is replaced by wild-cards bound to model_check_formula_dirty of the sub-formula (once with a fresh wild-card per occurrence, once with one shared wild-card for equal sub-formulae), and the extended evaluation must equal the plain result as a set; plus the identity cases (plain formula through the extended entry points with an empty context); the same for surrounding formulae that themselves contain wild-cards and restricted domains (extended templates and all extended formulae with <= 3, thorough 4, nodes; label families mixed and colour-disjoint; antichains of <= 2). On the bundled models {:?}: benchmark-style formulae with all antichains of <= 2 non-atomic closed sub-formulae. distinct_nontrivial = number of substitution cases, i.e. evaluations minus the three identity calls per formula (each case a distinct (formula, replaced occurrences, label sharing) triple)", bigmodels::family(tier));
     Ok(rep)
 }
